@@ -188,3 +188,33 @@ Section WithCiphers.
     snd (step cd ca st1 OpStr) = snd (step cd ca st2 OpStr).
   Proof. intros K H. cbn [step snd]. rewrite K, H. split; reflexivity. Qed.
 End WithCiphers.
+
+(* ------------------------------------------------------------------ *)
+(* concrete histories                                                   *)
+(* "B0000P0TE00N01ZZ" + "KS08ABCD": one optional block, reserved "ZZ" *)
+Definition ex_hdr1 : str := [66; 48; 48; 48; 48; 80; 48; 84; 69; 48; 48; 78; 48; 49; 90; 90; 75; 83; 48; 56; 65; 66; 67; 68].
+(* "D0016K1AB01SXX77": alphanumeric, but the block count "XX" is not numeric *)
+Definition ex_bad : str := [68; 48; 48; 49; 54; 75; 49; 65; 66; 48; 49; 83; 88; 88; 55; 55].
+(* "A0016D0AN00E0000" *)
+Definition ex_hdr2 : str := [65; 48; 48; 49; 54; 68; 48; 65; 78; 48; 48; 69; 48; 48; 48; 48].
+
+(* A load that fails at the block-count check has already overwritten the six
+   fields and the reserved field, and still holds the OLD optional blocks: the
+   object after a failure is a mixture.  History-freedom of the next load is
+   therefore a real theorem, not a consequence of "failure leaves no trace". *)
+Lemma failed_load_keeps_prefix :
+  header_load (fst (header_load default_header ex_hdr1)) ex_bad =
+  (mkHeader [68] [75; 49] [65] [66] [48; 49] [83] [55; 55] [([75; 83], [65; 66; 67; 68])],
+   Err HeaderError).
+Proof. vm_compute. reflexivity. Qed.
+
+(* load a header with a block and reserved "ZZ"; a failing load; then another
+   header: same return value and same object as a fresh Header loading it *)
+Lemma history_example cd ca kbpk :
+  let st := fst (run cd ca (mkState kbpk default_header) [OpLoad ex_hdr1; OpLoad ex_bad]) in
+  snd (run cd ca (mkState kbpk default_header) [OpLoad ex_hdr1; OpLoad ex_bad]) =
+    [OutNat 24; OutErr HeaderError] /\
+  step cd ca st (OpLoad ex_hdr2) = step cd ca (mkState kbpk default_header) (OpLoad ex_hdr2) /\
+  step cd ca st (OpLoad ex_hdr2) =
+    (mkState kbpk (mkHeader [65] [68; 48] [65] [78] [48; 48] [69] [48; 48] []), OutNat 16).
+Proof. vm_compute. repeat split. Qed.
